@@ -28,16 +28,31 @@
    variant that lacks only that fix, and the repaired outcome on [fixed].
    A twelfth, the recorded finding c11-handle-after-rebuild (six operations re-built the green tree
    and re-rooted `self`, so a handle taken earlier went stale), is repaired by
-   proposed_fixes/C11-10-in-place-splice.patch (pending commit): every edit is now an in-place
+   proposed_fixes/C11-10-in-place-splice.patch (committed to /repo as 5517d72): every edit is now an in-place
    splice_children on the live node.  [fixed] includes it (flag fx_in_place); the variants
    without_* of the eight earlier fixes are "that fix and C11-10 missing", [without_in_place] is the
    code with the eight fixes only.
 
    What is proved:
-   * C11_full ITSELF (RelEditSpec.C11_full, the property as first stated, for the code as it is in
+   * Audit follow-up (cone-c11f), now part of the statements:
+     - SEPARATORS ("never duplicated, left dangling or fused with a name") were not in C11_full — the
+       code without fix C11-02 or C11-07 satisfied every conjunct.  RelEditSpec now has a slot model
+       (tree_slots: the commas cut the root's children into slots holding an entry, a substitution
+       variable or nothing; field_shape: no slot holds two items; sstep: what each operation does to
+       the slots) and C11_full, C11_all_step / _history, C11_all_mixed_*, C11_any_history,
+       C11_any_mixed_history have the conjunct; C11_full_needs_append_sep / _first_substvar refute the
+       two variants; C11_seps_never_grow is the oracle's count.
+     - THE DOMAIN: Relation::version() also parses the version text with debversion.  RelEdit.structure
+       reads version texts as written; RelEdit.structure_d is what the accessors return (Panic 12).
+       C11_full is stated with structure_d (C11_full_raw with structure); C11_full_version_domain_witness.
+     - BUILT OPERANDS: wf_operands asks identifier texts of versions and architecture names too
+       (C11_built_operand_domain_witness); OUT OF RANGE positions panic (C11_out_of_range_panics).
+   * C11_full ITSELF (RelEditSpec.C11_full, the property as first stated plus the separator conjunct,
+     contents as the accessors show them, for the code as it is in
      /repo): C11_full_theorem in section 1e.  From any text that is read without error and whose
-     accessors do not panic (`structure t0 = Ok f0`: every version operator is one of the five;
-     C11_full_domain_witness shows that this hypothesis is needed), every in-range history of the
+     accessors do not panic (`structure_d t0 = Ok f0`: every version operator is one of the five and
+     every version text is a debversion::Version; C11_full_domain_witness and
+     C11_full_version_domain_witness show that this hypothesis is needed), every in-range history of the
      twelve operations with well-formed operands — any record, built by Relation::new or by
      RelationBuilder — runs without panic, leaves exactly the list model's field in the root, keeps
      the substitution variables, and prints a text that is read again without error to that same
@@ -74,6 +89,7 @@ From V.model Require RelGrammarAll RelLiveAll RelLiveAllParsed RelHandlesAll.
 From V.proofs Require Import BaseP RelEditP RelEditStP RelEditHistP RelEditReparseP RelEditFullP RelEditRefuteP.
 From V.proofs Require Import RelEditTreeP RelEditReplaceP RelEditParsedP RelLiveP RelLiveStepP RelLiveWfP RelLiveNormP RelLiveHistP RelLiveParsedP RelHandlesP RelEditBuildP.
 From V.proofs Require RelLiveAllStepP RelLiveAllHistP RelHandlesAllP RelEditParsedAllP RelLiveAllParsedP.
+From V.proofs Require RelSepsP RelEditVersionP RelEditRangeP RelLiveHistSepsP.
 
 (* the whole property is RelEditSpec.C11_full, a statement about a variant of the code; it is proved
    for the code as it is in /repo: C11_full_theorem (section 1e) *)
@@ -277,7 +293,7 @@ Check C11_any_reread : forall b l, lwf b l = true ->
             racc (rtree_of (norm l)) = Ok a /\ racc_view a = lcontent l.
 Print Assumptions C11_any_reread.
 
-(* (2)+(3) histories: from the tree of ANY well-formed field, every in-range history of the twelve operations (operands built by the constructors, identifier texts) runs without panic; the root then prints a well-formed field whose content is the list model's, substitution variables unchanged, and that text reads back without error to exactly that content.  (Apply it to every prefix of a history for the statement after every step; C11_any_history_all gives all intermediate layouts at once.) *)
+(* (2)+(3) histories: from the tree of ANY well-formed field, every in-range history of the twelve operations (operands built by the constructors, identifier texts) runs without panic; the root then prints a well-formed field whose content is the list model's, substitution variables unchanged, the SEPARATORS are the slot model's (RelEditSpec.tree_slots / sstep, RelLive.xslots_after: no slot holds two items, a new entry gets exactly one separator, an appended one fills a trailing empty slot, a removed one takes its separator along), and that text reads back without error to exactly that content.  (Apply it to every prefix of a history for the statement after every step; C11_any_history_all gives all intermediate layouts at once.) *)
 Theorem C11_any_history : forall b ops f st, wf_rfield b f = true -> forallb operands_ok ops = true ->
   xsteps_in_range (fst (rcontent f)) ops = true -> holds st (rtree_of f) ->
   exists l' st',
@@ -286,10 +302,12 @@ Theorem C11_any_history : forall b ops f st, wf_rfield b f = true -> forallb ope
     root_tree st' = Ok (ltree l') /\ root_text st' = Ok (rrender (norm l')) /\
     wf_rfield b (norm l') = true /\
     rcontent (norm l') = (fold_left xstep ops (fst (rcontent f)), snd (rcontent f)) /\
+    field_shape (ltree l') = true /\
+    tree_slots (ltree l') = xslots_after ops (fst (rcontent f)) (tree_slots (rtree_of f)) /\
     exists a, parse_relaxed (rrender (norm l')) b = Ok (rtree_of (norm l'), 0) /\
               racc (rtree_of (norm l')) = Ok a /\
               racc_view a = (fold_left xstep ops (fst (rcontent f)), snd (rcontent f)).
-Proof. exact history_any_field. Qed.
+Proof. exact RelLiveHistSepsP.history_any_field_seps. Qed.
 Check C11_any_history : forall b ops f st, wf_rfield b f = true -> forallb operands_ok ops = true ->
   xsteps_in_range (fst (rcontent f)) ops = true -> holds st (rtree_of f) ->
   exists l' st',
@@ -298,6 +316,8 @@ Check C11_any_history : forall b ops f st, wf_rfield b f = true -> forallb opera
     root_tree st' = Ok (ltree l') /\ root_text st' = Ok (rrender (norm l')) /\
     wf_rfield b (norm l') = true /\
     rcontent (norm l') = (fold_left xstep ops (fst (rcontent f)), snd (rcontent f)) /\
+    field_shape (ltree l') = true /\
+    tree_slots (ltree l') = xslots_after ops (fst (rcontent f)) (tree_slots (rtree_of f)) /\
     exists a, parse_relaxed (rrender (norm l')) b = Ok (rtree_of (norm l'), 0) /\
               racc (rtree_of (norm l')) = Ok a /\
               racc_view a = (fold_left xstep ops (fst (rcontent f)), snd (rcontent f)).
@@ -430,7 +450,7 @@ Check C11_any_mixed_step : forall b o l st, lwf b l = true -> goperands_ok o = t
                  lcontent l' = (gxstep (fst (lcontent l)) o, snd (lcontent l)).
 Print Assumptions C11_any_mixed_step.
 
-(* (2)+(3) histories mixing constructor-built and parsed operands, from any well-formed field, with the re-read *)
+(* (2)+(3) histories mixing constructor-built and parsed operands, from any well-formed field, with the separators and the re-read *)
 Theorem C11_any_mixed_history : forall b ops f st, wf_rfield b f = true -> forallb goperands_ok ops = true ->
   gsteps_in_range (fst (rcontent f)) ops = true -> holds st (rtree_of f) ->
   exists l' st',
@@ -439,10 +459,12 @@ Theorem C11_any_mixed_history : forall b ops f st, wf_rfield b f = true -> foral
     root_tree st' = Ok (ltree l') /\ root_text st' = Ok (rrender (norm l')) /\
     wf_rfield b (norm l') = true /\
     rcontent (norm l') = (fold_left gxstep ops (fst (rcontent f)), snd (rcontent f)) /\
+    field_shape (ltree l') = true /\
+    tree_slots (ltree l') = gslots_after ops (fst (rcontent f)) (tree_slots (rtree_of f)) /\
     exists a, parse_relaxed (rrender (norm l')) b = Ok (rtree_of (norm l'), 0) /\
               racc (rtree_of (norm l')) = Ok a /\
               racc_view a = (fold_left gxstep ops (fst (rcontent f)), snd (rcontent f)).
-Proof. exact g_history_any_field. Qed.
+Proof. exact RelLiveHistSepsP.g_history_any_field_seps. Qed.
 Check C11_any_mixed_history : forall b ops f st, wf_rfield b f = true -> forallb goperands_ok ops = true ->
   gsteps_in_range (fst (rcontent f)) ops = true -> holds st (rtree_of f) ->
   exists l' st',
@@ -451,10 +473,36 @@ Check C11_any_mixed_history : forall b ops f st, wf_rfield b f = true -> forallb
     root_tree st' = Ok (ltree l') /\ root_text st' = Ok (rrender (norm l')) /\
     wf_rfield b (norm l') = true /\
     rcontent (norm l') = (fold_left gxstep ops (fst (rcontent f)), snd (rcontent f)) /\
+    field_shape (ltree l') = true /\
+    tree_slots (ltree l') = gslots_after ops (fst (rcontent f)) (tree_slots (rtree_of f)) /\
     exists a, parse_relaxed (rrender (norm l')) b = Ok (rtree_of (norm l'), 0) /\
               racc (rtree_of (norm l')) = Ok a /\
               racc_view a = (fold_left gxstep ops (fst (rcontent f)), snd (rcontent f)).
 Print Assumptions C11_any_mixed_history.
+
+(* the separator conjunct for the other history theorems of this section (C11_any_history_from_text, _from_strict_text, _from_empty: they give `a_ops ops (live_of f) = Some l'` and the root holding `ltree l'`) *)
+Theorem C11_any_history_seps : forall b ops f l', wf_rfield b f = true -> forallb operands_ok ops = true ->
+  xsteps_in_range (fst (rcontent f)) ops = true -> a_ops ops (live_of f) = Some l' ->
+  field_shape (ltree l') = true /\
+  tree_slots (ltree l') = xslots_after ops (fst (rcontent f)) (tree_slots (rtree_of f)).
+Proof. exact RelLiveHistSepsP.any_history_slots. Qed.
+Check C11_any_history_seps : forall b ops f l', wf_rfield b f = true -> forallb operands_ok ops = true ->
+  xsteps_in_range (fst (rcontent f)) ops = true -> a_ops ops (live_of f) = Some l' ->
+  field_shape (ltree l') = true /\
+  tree_slots (ltree l') = xslots_after ops (fst (rcontent f)) (tree_slots (rtree_of f)).
+Print Assumptions C11_any_history_seps.
+
+(* and for C11_any_mixed_history_from_text *)
+Theorem C11_any_mixed_history_seps : forall b ops f l', wf_rfield b f = true -> forallb goperands_ok ops = true ->
+  gsteps_in_range (fst (rcontent f)) ops = true -> g_ops ops (live_of f) = Some l' ->
+  field_shape (ltree l') = true /\
+  tree_slots (ltree l') = gslots_after ops (fst (rcontent f)) (tree_slots (rtree_of f)).
+Proof. exact RelLiveHistSepsP.any_mixed_history_slots. Qed.
+Check C11_any_mixed_history_seps : forall b ops f l', wf_rfield b f = true -> forallb goperands_ok ops = true ->
+  gsteps_in_range (fst (rcontent f)) ops = true -> g_ops ops (live_of f) = Some l' ->
+  field_shape (ltree l') = true /\
+  tree_slots (ltree l') = gslots_after ops (fst (rcontent f)) (tree_slots (rtree_of f)).
+Print Assumptions C11_any_mixed_history_seps.
 
 Theorem C11_any_mixed_history_from_text : forall ops f, wf_rfield true f = true -> forallb goperands_ok ops = true ->
   gsteps_in_range (fst (rcontent f)) ops = true ->
@@ -617,31 +665,39 @@ Theorem C11_all_step : forall b o l st, RelLiveAll.lwf b l = true -> RelLiveAll.
                  run_ops fixed (compile o) st = Ok st' /\ holds st' (RelLiveAll.ltree l') /\
                  RelLiveAll.lwf b l' = true /\
                  RelLiveAll.lcontent l' = (RelLiveAll.xstep (fst (RelLiveAll.lcontent l)) o, snd (RelLiveAll.lcontent l)) /\
-                 RelLiveAllStepP.lentries l' = RelLiveAllStepP.estep (RelLiveAllStepP.lentries l) o.
-Proof. exact RelLiveAllHistP.live_step. Qed.
+                 RelLiveAllStepP.lentries l' = RelLiveAllStepP.estep (RelLiveAllStepP.lentries l) o /\
+                 field_shape (RelLiveAll.ltree l') = true /\
+                 tree_slots (RelLiveAll.ltree l') = sstep (fst (RelLiveAll.lcontent l)) (tree_slots (RelLiveAll.ltree l)) o.
+Proof. exact RelLiveAllHistP.live_step_seps. Qed.
 Check C11_all_step : forall b o l st, RelLiveAll.lwf b l = true -> RelLiveAll.operands_ok o = true ->
   RelLiveAll.x_in_range (fst (RelLiveAll.lcontent l)) o = true -> holds st (RelLiveAll.ltree l) ->
   exists l' st', RelLiveAll.a_op o l = Some l' /\
                  run_ops fixed (compile o) st = Ok st' /\ holds st' (RelLiveAll.ltree l') /\
                  RelLiveAll.lwf b l' = true /\
                  RelLiveAll.lcontent l' = (RelLiveAll.xstep (fst (RelLiveAll.lcontent l)) o, snd (RelLiveAll.lcontent l)) /\
-                 RelLiveAllStepP.lentries l' = RelLiveAllStepP.estep (RelLiveAllStepP.lentries l) o.
+                 RelLiveAllStepP.lentries l' = RelLiveAllStepP.estep (RelLiveAllStepP.lentries l) o /\
+                 field_shape (RelLiveAll.ltree l') = true /\
+                 tree_slots (RelLiveAll.ltree l') = sstep (fst (RelLiveAll.lcontent l)) (tree_slots (RelLiveAll.ltree l)) o.
 Print Assumptions C11_all_step.
 
-(* (2) histories *)
+(* (2) histories, with the separators *)
 Theorem C11_all_history : forall b ops l st, RelLiveAll.lwf b l = true -> forallb RelLiveAll.operands_ok ops = true ->
   hist_in_range (fst (RelLiveAll.lcontent l)) ops = true -> holds st (RelLiveAll.ltree l) ->
   exists l' st', RelLiveAll.a_ops ops l = Some l' /\
                  run_ops fixed (compile_all ops) st = Ok st' /\ holds st' (RelLiveAll.ltree l') /\
                  RelLiveAll.lwf b l' = true /\
-                 RelLiveAll.lcontent l' = (fold_left astep ops (fst (RelLiveAll.lcontent l)), snd (RelLiveAll.lcontent l)).
-Proof. exact RelLiveAllHistP.live_history. Qed.
+                 RelLiveAll.lcontent l' = (fold_left astep ops (fst (RelLiveAll.lcontent l)), snd (RelLiveAll.lcontent l)) /\
+                 field_shape (RelLiveAll.ltree l') = true /\
+                 tree_slots (RelLiveAll.ltree l') = slots_after ops (fst (RelLiveAll.lcontent l)) (tree_slots (RelLiveAll.ltree l)).
+Proof. exact RelLiveAllHistP.live_history_seps. Qed.
 Check C11_all_history : forall b ops l st, RelLiveAll.lwf b l = true -> forallb RelLiveAll.operands_ok ops = true ->
   hist_in_range (fst (RelLiveAll.lcontent l)) ops = true -> holds st (RelLiveAll.ltree l) ->
   exists l' st', RelLiveAll.a_ops ops l = Some l' /\
                  run_ops fixed (compile_all ops) st = Ok st' /\ holds st' (RelLiveAll.ltree l') /\
                  RelLiveAll.lwf b l' = true /\
-                 RelLiveAll.lcontent l' = (fold_left astep ops (fst (RelLiveAll.lcontent l)), snd (RelLiveAll.lcontent l)).
+                 RelLiveAll.lcontent l' = (fold_left astep ops (fst (RelLiveAll.lcontent l)), snd (RelLiveAll.lcontent l)) /\
+                 field_shape (RelLiveAll.ltree l') = true /\
+                 tree_slots (RelLiveAll.ltree l') = slots_after ops (fst (RelLiveAll.lcontent l)) (tree_slots (RelLiveAll.ltree l)).
 Print Assumptions C11_all_history.
 
 (* (3) the re-read through C10_image_sound: the text of a well-formed liberal live layout is the rendering of a liberal layout (RelLiveAll.norm: white space that an edit left in several tokens or in another node is one slot again; the token list is a lexer output), so it is read without error, to a tree whose structure is the content *)
@@ -746,13 +802,57 @@ Check C11_all_handles_relation : forall b sv st a m i j, RelHandlesAllP.Rel b sv
                 reg_text (rreg m) st = Ok (Some (text (RelLiveAll.lrel_tree r)), st).
 Print Assumptions C11_all_handles_relation.
 
-(* C11, IN FULL (RelEditSpec.C11_full, for the code as it is in /repo): from any text that parses without error and whose accessors do not panic, every in-range history with well-formed operands runs without panic, the root holds exactly the list model's field, the substitution variables keep their text, and the printed text parses again without error to that same field *)
+(* C11, IN FULL (RelEditSpec.C11_full, for the code as it is in /repo): from any text that parses without error and whose accessors do not panic (structure_d = Ok: every operator is one of the five AND every version text is a debversion::Version), every in-range history with well-formed operands runs without panic, the root holds exactly the list model's field (as the accessors show it: versions through debversion), the substitution variables keep their text, the SEPARATORS are the slot model's (field_shape: no slot holds two items; tree_slots = slots_after: a new entry gets exactly one separator, an appended one fills a trailing empty slot, a removed one takes its separator along, nothing else moves), and the printed text parses again without error to that same field *)
 Theorem C11_full_theorem : C11_full fixed.
 Proof. exact RelLiveAllHistP.C11_full_fixed. Qed.
 Check C11_full_theorem : C11_full fixed.
 Print Assumptions C11_full_theorem.
 
-(* the hypothesis `structure t0 = Ok f0` of C11_full is needed and is exactly the domain: "a (> 1), b" is read without error but Relation::version() panics on its first relation (the reader accepts any run of < > = as an operator: C12's class c12-nonstandard-operator), so the field has no list-model reading; the edits themselves do not use the accessors and still work next to it *)
+(* the same with the version texts as written (RelEdit.structure: no debversion parse; the domain is then only `every operator is one of the five`) *)
+Theorem C11_full_raw_theorem : C11_full_raw fixed.
+Proof. exact RelLiveAllHistP.C11_full_raw_fixed. Qed.
+Check C11_full_raw_theorem : C11_full_raw fixed.
+Print Assumptions C11_full_raw_theorem.
+
+(* the separator conjunct is not implied by the others: the code as it is in /repo but without fix C11-02 satisfies all the other conjuncts on "a, " + push z = "a, , z" (C11_full_needs_append_sep_others) and violates this one *)
+Theorem C11_full_needs_append_sep : ~ C11_full fixed_without_append_sep.
+Proof. exact C11_full_needs_append_sep. Qed.
+Check C11_full_needs_append_sep : ~ C11_full fixed_without_append_sep.
+Print Assumptions C11_full_needs_append_sep.
+
+(* and without fix C11-07 on "${x}, b" - entry 0 = "${x}, " (C11_full_needs_first_substvar_others) *)
+Theorem C11_full_needs_first_substvar : ~ C11_full fixed_without_first_substvar.
+Proof. exact C11_full_needs_first_substvar. Qed.
+Check C11_full_needs_first_substvar : ~ C11_full fixed_without_first_substvar.
+Print Assumptions C11_full_needs_first_substvar.
+
+(* a consequence of the slot model, the measure the oracle of the rel-edit stream uses (vlib/props/c11.py empty_slots): the number of separators the field could do without never grows *)
+Theorem C11_seps_never_grow : forall ops f s, n_empty_slots (slots_after ops f s) <= n_empty_slots s.
+Proof. exact RelSepsP.slots_after_never_more. Qed.
+Check C11_seps_never_grow : forall ops f s, n_empty_slots (slots_after ops f s) <= n_empty_slots s.
+Print Assumptions C11_seps_never_grow.
+
+(* the two green-level functions that touch separators, on ANY children list with the shape of a field: Relations::insert / push *)
+Theorem C11_seps_insert : forall cs idx eg, sep_from SEmpty cs = true -> is_entry eg = true ->
+  slots_from SEmpty (insert_at (fst (insert_plan fixed cs idx eg)) (snd (insert_plan fixed cs idx eg)) cs)
+  = s_insert idx (slots_from SEmpty cs).
+Proof. exact RelSepsP.insert_slots. Qed.
+Check C11_seps_insert : forall cs idx eg, sep_from SEmpty cs = true -> is_entry eg = true ->
+  slots_from SEmpty (insert_at (fst (insert_plan fixed cs idx eg)) (snd (insert_plan fixed cs idx eg)) cs)
+  = s_insert idx (slots_from SEmpty cs).
+Print Assumptions C11_seps_insert.
+
+(* and Entry::remove (remove_entry; Relation::remove of an only alternative) *)
+Theorem C11_seps_remove : forall cs idx ci cs', sep_from SEmpty cs = true -> nth_index is_entry idx cs = Some ci ->
+  entry_remove_cs fixed cs ci = Ok cs' ->
+  slots_from SEmpty cs' = s_remove idx (slots_from SEmpty cs).
+Proof. exact RelSepsP.remove_slots. Qed.
+Check C11_seps_remove : forall cs idx ci cs', sep_from SEmpty cs = true -> nth_index is_entry idx cs = Some ci ->
+  entry_remove_cs fixed cs ci = Ok cs' ->
+  slots_from SEmpty cs' = s_remove idx (slots_from SEmpty cs).
+Print Assumptions C11_seps_remove.
+
+(* the domain hypothesis of C11_full is needed, first half: "a (> 1), b" is read without error but Relation::version() panics on its first relation (the reader accepts any run of < > = as an operator: C12's class c12-nonstandard-operator), so the field has no list-model reading; the edits themselves do not use the accessors and still work next to it *)
 Theorem C11_full_domain_witness : reads_clean [97; 32; 40; 62; 32; 49; 41; 44; 32; 98]%N = true /\
   match parse_relaxed [97; 32; 40; 62; 32; 49; 41; 44; 32; 98]%N true with Ok (t, _) => structure t | _ => Err 0%N end = Panic 51%N /\
   run_text fixed (IRelaxed [97; 32; 40; 62; 32; 49; 41; 44; 32; 98]%N) (compile (ASetVersion 1 0 (Some (VGe, [50]%N)))) = Ok [97; 32; 40; 62; 32; 49; 41; 44; 32; 98; 32; 40; 62; 61; 32; 50; 41]%N.
@@ -761,6 +861,66 @@ Check C11_full_domain_witness : reads_clean [97; 32; 40; 62; 32; 49; 41; 44; 32;
   match parse_relaxed [97; 32; 40; 62; 32; 49; 41; 44; 32; 98]%N true with Ok (t, _) => structure t | _ => Err 0%N end = Panic 51%N /\
   run_text fixed (IRelaxed [97; 32; 40; 62; 32; 49; 41; 44; 32; 98]%N) (compile (ASetVersion 1 0 (Some (VGe, [50]%N)))) = Ok [97; 32; 40; 62; 32; 49; 41; 44; 32; 98; 32; 40; 62; 61; 32; 50; 41]%N.
 Print Assumptions C11_full_domain_witness.
+
+(* second half: Relation::version() also unwraps Version::from_str of the version text; an epoch above u32::MAX is read without error, RelEdit.structure (texts as written) is Ok, and the accessors (structure_d) panic.  So the no-panic domain is `structure_d = Ok`, not `structure = Ok` *)
+Theorem C11_full_version_domain_witness : reads_clean [97; 32; 40; 61; 32; 57; 57; 57; 57; 57; 57; 57; 57; 57; 57; 57; 58; 49; 41; 44; 32; 98]%N = true /\
+  match parse_relaxed [97; 32; 40; 61; 32; 57; 57; 57; 57; 57; 57; 57; 57; 57; 57; 57; 58; 49; 41; 44; 32; 98]%N true with Ok (t, _) => (match structure t with Ok _ => true | _ => false end, structure_d t) | _ => (false, Err 0%N) end = (true, Panic 12%N) /\
+  run_text fixed (IRelaxed [97; 32; 40; 61; 32; 57; 57; 57; 57; 57; 57; 57; 57; 57; 57; 57; 58; 49; 41; 44; 32; 98]%N) (compile (ASetVersion 1 0 (Some (VGe, [50]%N)))) = Ok [97; 32; 40; 61; 32; 57; 57; 57; 57; 57; 57; 57; 57; 57; 57; 57; 58; 49; 41; 44; 32; 98; 32; 40; 62; 61; 32; 50; 41]%N.
+Proof. exact unparsable_version_structure. Qed.
+Check C11_full_version_domain_witness : reads_clean [97; 32; 40; 61; 32; 57; 57; 57; 57; 57; 57; 57; 57; 57; 57; 57; 58; 49; 41; 44; 32; 98]%N = true /\
+  match parse_relaxed [97; 32; 40; 61; 32; 57; 57; 57; 57; 57; 57; 57; 57; 57; 57; 57; 58; 49; 41; 44; 32; 98]%N true with Ok (t, _) => (match structure t with Ok _ => true | _ => false end, structure_d t) | _ => (false, Err 0%N) end = (true, Panic 12%N) /\
+  run_text fixed (IRelaxed [97; 32; 40; 61; 32; 57; 57; 57; 57; 57; 57; 57; 57; 57; 57; 57; 58; 49; 41; 44; 32; 98]%N) (compile (ASetVersion 1 0 (Some (VGe, [50]%N)))) = Ok [97; 32; 40; 61; 32; 57; 57; 57; 57; 57; 57; 57; 57; 57; 57; 57; 58; 49; 41; 44; 32; 98; 32; 40; 62; 61; 32; 50; 41]%N.
+Print Assumptions C11_full_version_domain_witness.
+
+(* what the accessors return = RelEdit.structure with every version through debversion (RelEditSpec.field_display: Panic 12 when one is not a Version, the epoch re-printed) *)
+Theorem C11_structure_d_of : forall t f, structure t = Ok f -> structure_d t = field_display f.
+Proof. exact RelEditVersionP.structure_d_of. Qed.
+Check C11_structure_d_of : forall t f, structure t = Ok f -> structure_d t = field_display f.
+Print Assumptions C11_structure_d_of.
+
+Theorem C11_structure_d_inv : forall t f', structure_d t = Ok f' -> exists f, structure t = Ok f /\ field_display f = Ok f'.
+Proof. exact RelEditVersionP.structure_d_inv. Qed.
+Check C11_structure_d_inv : forall t f', structure_d t = Ok f' -> exists f, structure t = Ok f /\ field_display f = Ok f'.
+Print Assumptions C11_structure_d_inv.
+
+(* a version OPERAND is a debversion::Version; what an operation is given is its Display.  The identifier texts of wf_operands are versions that print as they are written *)
+Theorem C11_version_operand : forall v, ident_text v = true -> version_operand v = Ok v.
+Proof. exact RelEditVersionP.ident_version_operand. Qed.
+Check C11_version_operand : forall v, ident_text v = true -> version_operand v = Ok v.
+Print Assumptions C11_version_operand.
+
+(* the domain of BUILT operands, precisely (RelEditSpec.wf_operands): versions and architecture names too are identifier texts [A-Za-z0-9.+~-]; a version with an epoch and a negated architecture are outside the theorems about built operands (the code writes each as ONE IDENT token, which is not a lexer token, so the tree is not a live layout) — by evaluation they come out right; parsed operands have no such restriction *)
+Theorem C11_built_operand_domain_witness : wf_operands (ASetVersion 0 0 (Some (VGe, [49; 58; 50; 46; 48]%N))) = false /\
+  run_text fixed (IRelaxed [97]%N) (compile (ASetVersion 0 0 (Some (VGe, [49; 58; 50; 46; 48]%N)))) = Ok [97; 32; 40; 62; 61; 32; 49; 58; 50; 46; 48; 41]%N /\
+  match parse_relaxed [97; 32; 40; 62; 61; 32; 49; 58; 50; 46; 48; 41]%N true with Ok (t, 0) => structure_d t | _ => Err 0%N end = Ok [[mk_relrec [97]%N None (Some (VGe, [49; 58; 50; 46; 48]%N)) None []]].
+Proof. exact built_epoch_version. Qed.
+Check C11_built_operand_domain_witness : wf_operands (ASetVersion 0 0 (Some (VGe, [49; 58; 50; 46; 48]%N))) = false /\
+  run_text fixed (IRelaxed [97]%N) (compile (ASetVersion 0 0 (Some (VGe, [49; 58; 50; 46; 48]%N)))) = Ok [97; 32; 40; 62; 61; 32; 49; 58; 50; 46; 48; 41]%N /\
+  match parse_relaxed [97; 32; 40; 62; 61; 32; 49; 58; 50; 46; 48; 41]%N true with Ok (t, 0) => structure_d t | _ => Err 0%N end = Ok [[mk_relrec [97]%N None (Some (VGe, [49; 58; 50; 46; 48]%N)) None []]].
+Print Assumptions C11_built_operand_domain_witness.
+
+Theorem C11_built_operand_domain_witness_arch : wf_operands (ASetArchs 0 0 [[33; 97; 114; 109; 101; 108]%N; [105; 51; 56; 54]%N]) = false /\
+  run_text fixed (IRelaxed [97]%N) (compile (ASetArchs 0 0 [[33; 97; 114; 109; 101; 108]%N; [105; 51; 56; 54]%N])) = Ok [97; 32; 91; 33; 97; 114; 109; 101; 108; 32; 105; 51; 56; 54; 93]%N /\
+  match parse_relaxed [97; 32; 91; 33; 97; 114; 109; 101; 108; 32; 105; 51; 56; 54; 93]%N true with Ok (t, 0) => structure_d t | _ => Err 0%N end = Ok [[mk_relrec [97]%N None None (Some [[33; 97; 114; 109; 101; 108]%N; [105; 51; 56; 54]%N]) []]].
+Proof. exact built_negated_architecture. Qed.
+Check C11_built_operand_domain_witness_arch : wf_operands (ASetArchs 0 0 [[33; 97; 114; 109; 101; 108]%N; [105; 51; 56; 54]%N]) = false /\
+  run_text fixed (IRelaxed [97]%N) (compile (ASetArchs 0 0 [[33; 97; 114; 109; 101; 108]%N; [105; 51; 56; 54]%N])) = Ok [97; 32; 91; 33; 97; 114; 109; 101; 108; 32; 105; 51; 56; 54; 93]%N /\
+  match parse_relaxed [97; 32; 91; 33; 97; 114; 109; 101; 108; 32; 105; 51; 56; 54; 93]%N true with Ok (t, 0) => structure_d t | _ => Err 0%N end = Ok [[mk_relrec [97]%N None None (Some [[33; 97; 114; 109; 101; 108]%N; [105; 51; 56; 54]%N]) []]].
+Print Assumptions C11_built_operand_domain_witness_arch.
+
+(* positions out of range: where the API unwraps a position — Relations::replace, remove_entry, Entry::replace, Entry::remove_relation — the code PANICS, and so does the model (get_entry(idx).unwrap(), get_relation(idx).unwrap()): a documented behaviour of the code, outside the list model (aop_in_range), not a gap of the model.  (insert / push accept any index; an operation through an Entry handle that does not exist cannot be issued.)  On any tree: RelEditRangeP.remove_entry_out_of_range, replace_out_of_range, ereplace_out_of_range, remove_relation_out_of_range *)
+Theorem C11_out_of_range_panics : forall l st f sv, RelLiveAll.lcontent l = (f, sv) -> holds st (RelLiveAll.ltree l) ->
+  (forall i, length f <= i -> run_ops fixed (compile (ARemoveEntry i)) st = Panic 41%N) /\
+  (forall i e, length f <= i -> run_ops fixed (compile (AReplace i e)) st = Panic 40%N) /\
+  (forall i j r, i < length f -> RelHandlesAll.n_alts f i <= j -> run_ops fixed (compile (AEReplace i j r)) st = Panic 46%N) /\
+  (forall i j, i < length f -> RelHandlesAll.n_alts f i <= j -> run_ops fixed (compile (ARemoveRelation i j)) st = Panic 48%N).
+Proof. exact RelEditRangeP.out_of_range_panics. Qed.
+Check C11_out_of_range_panics : forall l st f sv, RelLiveAll.lcontent l = (f, sv) -> holds st (RelLiveAll.ltree l) ->
+  (forall i, length f <= i -> run_ops fixed (compile (ARemoveEntry i)) st = Panic 41%N) /\
+  (forall i e, length f <= i -> run_ops fixed (compile (AReplace i e)) st = Panic 40%N) /\
+  (forall i j r, i < length f -> RelHandlesAll.n_alts f i <= j -> run_ops fixed (compile (AEReplace i j r)) st = Panic 46%N) /\
+  (forall i j, i < length f -> RelHandlesAll.n_alts f i <= j -> run_ops fixed (compile (ARemoveRelation i j)) st = Panic 48%N).
+Print Assumptions C11_out_of_range_panics.
 
 (* the one correction of the STATEMENT: compile builds an operand record that has architectures or profiles but no qualifier with RelationBuilder (rel_spec); as first written it used Relation::new for every record without qualifier, which drops them *)
 Theorem C11_builder_operand_witness : 
@@ -808,23 +968,27 @@ Check C11_all_mixed_step : forall b o l st, RelLiveAll.lwf b l = true -> RelLive
                  RelLiveAll.lcontent l' = (RelLiveAllParsed.gxstep (fst (RelLiveAll.lcontent l)) o, snd (RelLiveAll.lcontent l)).
 Print Assumptions C11_all_mixed_step.
 
-(* (2) histories mixing built and parsed operands *)
+(* (2) histories mixing built and parsed operands, with the separators *)
 Theorem C11_all_mixed_history : forall b ops l st, RelLiveAll.lwf b l = true -> forallb RelLiveAllParsed.goperands_ok ops = true ->
   RelLiveAllParsed.gsteps_in_range (fst (RelLiveAll.lcontent l)) ops = true -> holds st (RelLiveAll.ltree l) ->
   exists l' st', RelLiveAllParsed.g_ops ops l = Some l' /\
                  run_ops fixed (RelLiveAllParsed.gcompile_all ops) st = Ok st' /\ holds st' (RelLiveAll.ltree l') /\
                  RelLiveAll.lwf b l' = true /\
-                 RelLiveAll.lcontent l' = (fold_left RelLiveAllParsed.gxstep ops (fst (RelLiveAll.lcontent l)), snd (RelLiveAll.lcontent l)).
-Proof. exact RelLiveAllParsedP.g_history. Qed.
+                 RelLiveAll.lcontent l' = (fold_left RelLiveAllParsed.gxstep ops (fst (RelLiveAll.lcontent l)), snd (RelLiveAll.lcontent l)) /\
+                 field_shape (RelLiveAll.ltree l') = true /\
+                 tree_slots (RelLiveAll.ltree l') = RelLiveAllParsed.gslots_after ops (fst (RelLiveAll.lcontent l)) (tree_slots (RelLiveAll.ltree l)).
+Proof. exact RelLiveAllParsedP.g_history_seps. Qed.
 Check C11_all_mixed_history : forall b ops l st, RelLiveAll.lwf b l = true -> forallb RelLiveAllParsed.goperands_ok ops = true ->
   RelLiveAllParsed.gsteps_in_range (fst (RelLiveAll.lcontent l)) ops = true -> holds st (RelLiveAll.ltree l) ->
   exists l' st', RelLiveAllParsed.g_ops ops l = Some l' /\
                  run_ops fixed (RelLiveAllParsed.gcompile_all ops) st = Ok st' /\ holds st' (RelLiveAll.ltree l') /\
                  RelLiveAll.lwf b l' = true /\
-                 RelLiveAll.lcontent l' = (fold_left RelLiveAllParsed.gxstep ops (fst (RelLiveAll.lcontent l)), snd (RelLiveAll.lcontent l)).
+                 RelLiveAll.lcontent l' = (fold_left RelLiveAllParsed.gxstep ops (fst (RelLiveAll.lcontent l)), snd (RelLiveAll.lcontent l)) /\
+                 field_shape (RelLiveAll.ltree l') = true /\
+                 tree_slots (RelLiveAll.ltree l') = RelLiveAllParsed.gslots_after ops (fst (RelLiveAll.lcontent l)) (tree_slots (RelLiveAll.ltree l)).
 Print Assumptions C11_all_mixed_history.
 
-(* C11_full with operands of either kind: from any text read without error (accessors not panicking), every in-range history whose operands are well-formed records (built) or accepted, readable texts (parsed) runs without panic, leaves exactly the list model's field in the root, keeps the substitution variables, and prints a text that is read again without error to that field *)
+(* C11_full_raw (version texts as written) with operands of either kind: from any text read without error (accessors not panicking), every in-range history whose operands are well-formed records (built) or accepted, readable texts (parsed) runs without panic, leaves exactly the list model's field in the root, keeps the substitution variables, and prints a text that is read again without error to that field *)
 Theorem C11_all_mixed_full : forall (s : str) (t0 : rtree) (f0 : lfield) (ops : list RelLiveAllParsed.gop),
   parse_relaxed s true = Ok (t0, 0) -> structure t0 = Ok f0 ->
   RelLiveAllParsed.gsteps_in_range f0 ops = true -> forallb RelLiveAllParsed.goperands_ok ops = true ->
@@ -832,9 +996,10 @@ Theorem C11_all_mixed_full : forall (s : str) (t0 : rtree) (f0 : lfield) (ops : 
   exists t', root_tree st' = Ok t' /\
     structure t' = Ok (fold_left RelLiveAllParsed.gxstep ops f0) /\
     substvar_texts t' = substvar_texts t0 /\
+    field_shape t' = true /\ tree_slots t' = RelLiveAllParsed.gslots_after ops f0 (tree_slots t0) /\
     exists t'', parse_relaxed (text t') true = Ok (t'', 0) /\
                 structure t'' = Ok (fold_left RelLiveAllParsed.gxstep ops f0).
-Proof. exact RelLiveAllParsedP.g_history_full. Qed.
+Proof. exact RelLiveAllParsedP.g_history_full_seps. Qed.
 Check C11_all_mixed_full : forall (s : str) (t0 : rtree) (f0 : lfield) (ops : list RelLiveAllParsed.gop),
   parse_relaxed s true = Ok (t0, 0) -> structure t0 = Ok f0 ->
   RelLiveAllParsed.gsteps_in_range f0 ops = true -> forallb RelLiveAllParsed.goperands_ok ops = true ->
@@ -842,6 +1007,7 @@ Check C11_all_mixed_full : forall (s : str) (t0 : rtree) (f0 : lfield) (ops : li
   exists t', root_tree st' = Ok t' /\
     structure t' = Ok (fold_left RelLiveAllParsed.gxstep ops f0) /\
     substvar_texts t' = substvar_texts t0 /\
+    field_shape t' = true /\ tree_slots t' = RelLiveAllParsed.gslots_after ops f0 (tree_slots t0) /\
     exists t'', parse_relaxed (text t') true = Ok (t'', 0) /\
                 structure t'' = Ok (fold_left RelLiveAllParsed.gxstep ops f0).
 Print Assumptions C11_all_mixed_full.
@@ -1240,7 +1406,8 @@ Proof. vm_compute. repeat split; reflexivity. Qed.
      "\r a:b(>= 2)[!! x !]<a !b ! c><> <r> | n:any [amd64] <p !q> , ${::a:},, w:native <!s>"
    which is read again without error to exactly the list model's field. *)
 Example C11_full_ex :
-  let sfield s := match parse_relaxed s true with Ok (t, 0) => structure t | _ => Err 1%N end in
+  let sfield s := match parse_relaxed s true with Ok (t, 0) => structure_d t | _ => Err 1%N end in
+  let slots s := match parse_relaxed s true with Ok (t, 0) => tree_slots t | _ => [] end in
   let s0 := [13; 32; 97; 58; 98; 40; 61; 32; 53; 58; 58; 41; 91; 33; 33; 32; 120; 32; 33; 93; 60; 97; 32; 33; 98; 32; 33; 32; 99; 62; 60; 62; 124; 122; 32; 44; 32; 36; 123; 58; 58; 97; 58; 125; 44; 44]%N in
   let f0 := [[mk_relrec [97]%N (Some [98]%N) (Some (VEq, [53; 58; 58]%N)) (Some [[33; 120]%N]) [[PEnabled [97]%N; PDisabled [98]%N; PDisabled []%N; PEnabled [99]%N]; []]; mk_relrec [122]%N None None None []]] in
   let ops := [ASetVersion 0 0 (Some (VGe, [50]%N)); AEPush 0 (mk_relrec [110]%N (Some [97; 110; 121]%N) None (Some [[97; 109; 100; 54; 52]%N]) [[PEnabled [112]%N; PDisabled [113]%N]]);
@@ -1250,7 +1417,8 @@ Example C11_full_ex :
   sfield s0 = Ok f0 /\ hist_in_range f0 ops = true /\ forallb wf_operands ops = true /\
   run_text fixed (IRelaxed s0) (compile_all ops) = Ok s1 /\
   fold_left astep ops f0 = [[mk_relrec [97]%N (Some [98]%N) (Some (VGe, [50]%N)) (Some [[33; 120]%N]) [[PEnabled [97]%N; PDisabled [98]%N; PDisabled []%N; PEnabled [99]%N]; []; [PEnabled [114]%N]]; mk_relrec [110]%N (Some [97; 110; 121]%N) None (Some [[97; 109; 100; 54; 52]%N]) [[PEnabled [112]%N; PDisabled [113]%N]]]; [mk_relrec [119]%N (Some [110; 97; 116; 105; 118; 101]%N) None None [[PDisabled [115]%N]]]] /\
-  sfield s1 = Ok (fold_left astep ops f0).
+  sfield s1 = Ok (fold_left astep ops f0) /\
+  slots s0 = [SEntry; SSubst; SEmpty; SEmpty] /\ slots s1 = slots_after ops f0 (slots s0) /\ slots s1 = [SEntry; SSubst; SEmpty; SEntry].
 Proof. vm_compute. repeat split; reflexivity. Qed.
 
 (* Non-vacuity of the handle theorems with parsed operands (and of section 1f): the text of
